@@ -1,7 +1,7 @@
 """C14 — Packets and payloads behave as values."""
 from cmpverif import facts, paths
 from cmpverif.build import Broken
-from cmpverif.facts import callee_name, called_names, canon, const_value, depends, strip, strip_all_casts, walk
+from cmpverif.facts import callee_name, called_names, canon, const_value, depends, strip, strip_all_casts, walk, reads
 from cmpverif.report import Result
 
 LEVEL = "other"
@@ -299,6 +299,73 @@ def run(ctx):
         res.check(bad is None, "C14-R4", "%s(%s):identity" % (f.name.split("::")[-1], f.params[0]["t"]["s"].replace("const ", "").replace(" &", "")), f.loc,
                   "no branch on pointer identity returns false",
                   "when `%s` holds the operator returns false: x == x is false for every object" % (canon(bad[0][4]) + " == " + canon(bad[0][5]) if bad else ""))
+
+    # ---- R3, second half: what the comparisons decide.  Per path through an operator==: a comparison of the same getter / member of both
+    # operands is an equality literal; a path that has seen a mismatch returns false and nothing else, a constant `false` is only returned
+    # after a mismatch, and a returned expression is itself a positive equality of the two operands' parts.
+    for f in eqs:
+        if len(f.params) != 2:
+            continue
+        pa, pb = f.params[0]["decl"], f.params[1]["decl"]
+        X = {"k": "ref", "dk": "param", "decl": "X", "name": "X", "id": -7}
+
+        def side(e, pd, other):
+            e2 = facts.expand(f, e)
+            rd = reads(e2)
+            if pd not in rd or other in rd:
+                return None
+            return canon(strip_all_casts(facts.substitute(e2, {pd: X})))
+
+        def literal(op, L, R):
+            if (strip(facts.expand(f, L)).get("t") or {}).get("k") == "ptr" and op == "!=":
+                return None  # two different addresses say nothing about the values behind them
+            for l, r in ((L, R), (R, L)):
+                cl, cr = side(l, pa, pb), side(r, pb, pa)
+                if cl is not None and cl == cr:
+                    return (cl, op == "==")
+            return None
+
+        def expr_literal(e):
+            e = strip(e)
+            if e.get("k") == "bin" and e.get("op") in ("==", "!="):
+                return literal(e["op"], e["l"], e["r"])
+            if e.get("k") == "call" and e.get("op") in ("==", "!="):
+                ops = ([e["obj"]] if "obj" in e else []) + e.get("args", [])
+                if len(ops) == 2:
+                    return literal(e["op"], ops[0], ops[1])
+            if e.get("k") == "un" and e.get("op") == "!":
+                li = expr_literal(e["e"])
+                return (li[0], not li[1]) if li else None
+            return None
+        tag = "%s(%s)" % (f.name.split("::")[-1], f.params[0]["t"]["s"].replace("const ", "").replace(" &", ""))
+        bad = None
+        nlit = 0
+        for p in paths.enumerate_paths(f):
+            r = p.returns()
+            if r is None or p.end != "exit" or r.get("e") is None:
+                continue
+            lits = [literal(a[2], a[4], a[5]) for a in p.atoms if a[0] == "cmp" and a[2] in ("==", "!=")]
+            lits = [x for x in lits if x is not None]
+            nlit += len(lits)
+            mism = [x for x in lits if not x[1]]
+            v = p.value_of(r["e"], before=r["id"])
+            cv = const_value(v)
+            li0 = expr_literal(v) if cv is None else None
+            if mism and cv is None and li0 is not None and li0[1] and li0[0] in {x[0] for x in mism}:
+                pass  # returns `a.f == b.f` where that very comparison is known to fail on this path: false
+            elif mism and cv != 0:
+                bad = bad or "a path on which `%s` differs between the operands does not return false (returns `%s`)" % (mism[0][0][:60], canon(v)[:60])
+            elif cv == 0 and p.atoms and p.atoms[-1][0] == "cmp" and p.atoms[-1][2] in ("==", "!=") and \
+                    (literal(p.atoms[-1][2], p.atoms[-1][4], p.atoms[-1][5]) or (None, False))[1]:
+                # the branch that leads to this `return false` was taken because the two operands AGREE
+                bad = bad or "`return false` is decided by `%s` being equal in both operands" % literal(p.atoms[-1][2], p.atoms[-1][4], p.atoms[-1][5])[0][:60]
+            elif cv is None:
+                li = expr_literal(v)
+                if li is not None and not li[1]:
+                    bad = bad or "the operator returns the *in*equality of `%s`" % li[0][:60]
+        if nlit:
+            res.check(bad is None, "C14-R3", "%s:decides-by-mismatch" % tag, f.loc, "false exactly on the paths that found a difference; returned expressions are positive equalities",
+                      "%s: %s" % (f.name, bad))
 
     # ---- R5 inequality
     # the value types of the property: Packet, Payload and what derives from them (helper iterators etc. are not in scope)
